@@ -276,3 +276,13 @@ Example C11_same_survivors_nonvacuous :
   answer (exec_cmds router0 cs) (resolve nofilt (exec_cmds router0 cs) (47%N :: s_abc) [s_get])
   = AOk 0 s_get 1 [] [(3, (Some 50, None))].
 Proof. exact same_survivors_nonvacuous_lemma. Qed.
+
+(* RadiDict._routes_iter over the whole tree (audit round): after any history
+   it yields a data node under route string s holding Route d exactly when the
+   routes index maps s to d — a function of the index, not of the tree's shape. *)
+Theorem C11_routes_iter_lists_index : forall (cs : list cmd) yh s d,
+  Forall hist_cmd cs ->
+  let R := exec_cmds router0 cs in
+  (exists h, In (s, (Some d, h)) (routes_iter (tree R) [] yh)) <-> al_get (routes R) s = Some d.
+Proof. exact routes_iter_lemma. Qed.
+Print Assumptions C11_routes_iter_lists_index.
